@@ -27,7 +27,7 @@
 //   cmp compares the top solution before and after the call with the real PlannerSolution::operator<.
 // In trace mode (planner RRT) ` | ev=` lists what happened inside the planner call: A<serial> / F<serial>
 // (allocState / freeState), P<b> (termination condition evaluated), M<serial of s1>:<b>:<bits of s2>,
-// G<serial>:<sat>:<dist bits>; control planners: X<src serial>:<dst serial>:<bits of dst> (propagate), V<serial>:<b> (isValid).
+// m<serial s1>:<serial s2>:<bits of s1> (before every M; RRTConnect lock-step), G<serial>:<sat>:<dist bits>; control planners: X<src serial>:<dst serial>:<bits of dst> (propagate), V<serial>:<b> (isValid).
 #include "common/planning.h"
 #include <ompl/base/DiscreteMotionValidator.h>
 #include <ompl/base/PlannerData.h>
@@ -133,6 +133,16 @@ public:
         {
             std::vector<double> reals;
             si_->getStateSpace()->copyToReals(reals, s2);
+            // m<serial s1>:<serial s2> first (which of the two is the planner's scratch state tells the tree side and
+            // REACHED / ADVANCED of RRTConnect::growTree), then the M event the single-tree parsers read
+            {
+                std::vector<double> r1;
+                si_->getStateSpace()->copyToReals(r1, s1);
+                std::string e = "m" + std::to_string(t_->serial(s1)) + ":" + std::to_string(t_->serial(s2));
+                for (double d : r1)
+                    e += ":" + vp::bits(d);
+                t_->ev.push_back(e);
+            }
             std::string s = "M" + std::to_string(t_->serial(s1)) + ":" + (r ? "1" : "0");
             for (double d : reals)
                 s += ":" + vp::bits(d);
